@@ -413,6 +413,14 @@ func isMuSel(info *types.Info, e ast.Expr) (ast.Expr, bool) {
 	return nil, false
 }
 
+func isAtomicType(t types.Type) bool {
+	if p, ok := t.(*types.Pointer); ok {
+		t = p.Elem()
+	}
+	n, ok := t.(*types.Named)
+	return ok && n.Obj().Pkg() != nil && n.Obj().Pkg().Path() == "sync/atomic"
+}
+
 // ifaceObserver: methods of an interface-typed guarded field that only observe the object behind it
 var ifaceObserver = map[string]bool{"Size": true, "Len": true, "IsEmpty": true, "Peek": true, "Search": true, "String": true}
 
@@ -443,6 +451,17 @@ func (a *analyzer) expr(states []*state, e ast.Expr) []*state {
 			return states
 		}
 		if sel := a.info.Selections[x]; sel != nil && sel.Kind() == types.FieldVal {
+			if isAtomicType(sel.Obj().Type()) {
+				// a field of a sync/atomic type: every access goes through its atomic methods, so it never races
+				// (C01 ignores it); but an atomic step on shared state OUTSIDE the critical section is a separate
+				// step of the operation (C02: flag `atomicOutsideLock`)
+				for _, s := range states {
+					if modeKey(s.cur.Mode) == "" {
+						s.flags["atomicOutsideLock"] = true
+					}
+				}
+				return a.expr(states, x.X)
+			}
 			for _, s := range states {
 				a.note(s, x, false)
 			}
